@@ -52,6 +52,11 @@ theorem cat_correct (input : List Char) (hne : input ≠ []) :
       (runN cat n (initCfg input)).1.m.2.err = [] :=
   HyE.cat_correct input hne
 
+/-- …and on the empty input it writes the NaN text and halts normally (a loop-until-end-of-input copier
+cannot be silent there: the first pass through the print command happens before the first test) -/
+theorem cat_empty : ∃ n, (runN cat n (initCfg [])).2 = .ended ∧ (runN cat n (initCfg [])).1.m.2.out = nanText ∧
+    (runN cat n (initCfg [])).1.m.2.err = [] := HyE.cat_empty
+
 /-- Reverse: `revN k` halts normally having written the first `k+1` characters of the input in reverse
 order (the characters may span several lines) -/
 theorem revN_correct (input : List Char) (k : Nat) (hk : k + 1 ≤ input.length) :
